@@ -163,6 +163,7 @@ CHECKS = {
              "every module and misspelt stdlib imports) and the non-interference statement for the cold build and the warm build that follows it; TLC enumerates and emits every configuration, each is executed on the "
              "real code in an interpreter started with that PYTHONHASHSEED and compared with the baseline context: diagnostics byte for byte "
              "(as a set across file orders), cache records byte for byte under a logical clock, and the output of a warm run in the same interpreter (against the cold output and, byte for byte, against the baseline's warm output). "
+             "The repository's check cases (7.7 k; quick 1/10, thorough 1/2) are built cold and warm under 2-3 hash seeds: text AND order of the messages must agree. "
              "Exploration is the honest level: the state machine adds no reachability argument here, it generates the space.",
         design_ref="DESIGN.md 5.C10",
         note="in-process builds with fixtures; order-independence is only demanded of the acyclic worlds' diagnostics as a set; cache-record "
